@@ -28,6 +28,20 @@ BATTERY = [
 ]
 
 
+# operand lists in which a prefix has NO interior (open segment, out-and-back sliver, a contour
+# traced twice under evenodd) followed by operands that do: an empty intermediate result must not
+# end the fold (union) and must not be skipped (intersection / difference)
+BATTERIES = [
+    BATTERY,
+    ["M0,0 L10,0", "M3,3 L9,9 L3,3 Z", "M1,1 L9,1 L5,8 Z", "M2,2 L12,2 L12,12 L2,12 Z"],
+    ["M1,1 L9,1 L5,8 Z", "M20,20 L30,20 L25,28 Z", "M0,0 L10,0", "M2,2 L12,2 L12,12 L2,12 Z"],
+    ["M0,0 L10,0 L10,10 Z M0,0 L10,0 L10,10 Z", "M0,0 L10,0", "M1,1 L9,1 L5,8 Z", "M2,2 L12,2 L12,12 L2,12 Z"],
+]
+
+
+TRICKY = "M7,0 L8,7 C2,5 9,4 6,6 Z"  # skia-pathops: simplify operation did not succeed
+
+
 def operand(h, i, skel):
     cmds = []
     k = 0
@@ -165,7 +179,7 @@ def run_case(case, tier):
         make_harness(case),
         mods_=m,
         timeout_ms=10000,
-        opts={"skia_may_raise": bool(case.get("raise")), "snap_cut": True},
+        opts={"skia_may_raise": bool(case.get("raise")), "snap_cut": True, "skia_may_return_empty": not case.get("raise")},
         validate_every=0,
         trace_first=1,
     )
@@ -193,7 +207,7 @@ def _segs(d):
     return PI.interp([(c, tuple(a)) for c, a in p])
 
 
-def replay(case, failure):
+def _replay_battery(case, failure, BATTERY):
     """real picosvg + real Skia on a battery of self-overlapping operands,
     compared with the set operation by independent point sampling"""
     from picosvg import svg_pathops as P, svg_types as T
@@ -225,6 +239,29 @@ def replay(case, failure):
                 pass
         finally:
             P.pathops.op = orig_op
+        # simplify() is a method of a C type and cannot be patched: use a contour on which the real
+        # Skia simplify gives up (checked here first), alone and next to an ordinary operand
+        tricky = list(SVGPath(d=TRICKY).as_cmd_seq())
+        probe = pathops.Path()
+        probe.moveTo(7, 0); probe.lineTo(8, 7); probe.cubicTo(2, 5, 9, 4, 6, 6); probe.close()
+        try:
+            probe.simplify()
+            engine_fails = False
+        except pathops.PathOpsError:
+            engine_fails = True
+        if engine_fails:
+            try:
+                if op == "remove_overlaps":
+                    if api == "path_method":
+                        SVGPath(d=TRICKY, fill_rule=rules[0]).remove_overlaps()
+                    else:
+                        list(P.remove_overlaps(tricky, rules[0]))
+                    return {"reproduced": True, "detail": "engine failure in simplify() did not raise", "input": TRICKY}
+                elif n == 1:
+                    list(getattr(P, op)([tricky], rules[:1]))
+                    return {"reproduced": True, "detail": "engine failure in simplify() did not raise", "input": TRICKY}
+            except pathops.PathOpsError:
+                pass
         return {"reproduced": False, "detail": "engine failure propagates"}
     try:
         if api == "pathops":
@@ -272,6 +309,16 @@ def replay(case, failure):
         if got_nz != want or got_eo != want:
             bad.append((q, want, got_nz, got_eo))
     return {"reproduced": bool(bad), "detail": f"{len(bad)} sample points disagree; first={bad[:1]}", "battery": ds, "result": res_d[:300]}
+
+
+def replay(case, failure):
+    rep = None
+    for b in BATTERIES:
+        r = _replay_battery(case, failure, b)
+        if r.get("reproduced"):
+            return r
+        rep = rep or r
+    return rep
 
 
 def describe(tier):
